@@ -14,11 +14,12 @@ clean() { git checkout -q -- . ; git clean -fdq -- lsp4spl spl_frontend; }
 
 run_demo() { # $1 = seed dir; returns 0 if the demonstration passes
     local d="$1" n; n=$(basename "$d")
-    if ls "$d"/demo.py >/dev/null 2>&1; then
+    local py; py=$(ls "$d"/*.py 2>/dev/null | head -1)
+    if [ -n "$py" ]; then
         local feat=""
-        grep -q "verif" "$d/demo.py" "$d/demo.md" 2>/dev/null && feat="--features verif"
+        grep -q "features verif" "$py" "$d/demo.md" 2>/dev/null && feat="--features verif"
         cargo build -q --release -p lsp4spl --offline $feat 2>/dev/null || return 2
-        LSP4SPL_BIN="$WT/target/release/lsp4spl" timeout 600 python3 "$d/demo.py" "$WT/target/release/lsp4spl" >/tmp/verify_demo.out 2>&1
+        LSP4SPL_BIN="$WT/target/release/lsp4spl" timeout 600 python3 "$py" "$WT/target/release/lsp4spl" >/tmp/verify_demo.out 2>&1
         return $?
     fi
     local f; f=$(ls "$d"/*.rs | head -1); local mod; mod=$(basename "$f" .rs)
